@@ -17,6 +17,10 @@ package ledger
 //         app_local_put uint / bytes and app_local_del for keys {k1,k2,k3} by the two
 //         accounts A, B on their own local state (quick tier: B only puts k1); opt-in /
 //         close-out / clear-state of A, B; delete-app; END-BLOCK.
+//   family: a reduced box alphabet performed both by the dispatcher and by a sibling app of
+//         the same creator through app_box_create/put/resize/splice/del on the
+//         dispatcher's boxes, plus app_params_set AppFamilyBoxAccess on/off (the sibling
+//         may write only while it is on); the accounting must stay with the dispatcher.
 // Packaging modes (separate explorations)
 //   "groups": every operation is its own group in the block under construction; the
 //         END-BLOCK operation (at most once per trace) generates the block, validates it
@@ -26,7 +30,8 @@ package ledger
 //         to a fresh evaluator at every step (a rejected step leaves the group as it was).
 // Environments: "app" (dispatcher pre-created and funded in committed blocks, no boxes),
 //   "flushed" (same plus boxes a = 8 bytes and bb = 0 bytes created earlier and flushed
-//   from the in-memory deltas to the account database), "bare" (no application; kv only).
+//   from the in-memory deltas to the account database), "bare" (no application; kv only),
+//   "family" (dispatcher + sibling app pre-created, FamilyBoxAccess initially off).
 //
 // Oracle. A reference state (c23ref: boxes as byte strings, key -> type maps, schema)
 // written from the TEAL opcode documentation says accept/reject for every step; the real
@@ -102,7 +107,11 @@ txn ApplicationArgs 0; byte "bz"; ==; bnz L_bz
 txn ApplicationArgs 0; byte "br"; ==; bnz L_br
 txn ApplicationArgs 0; byte "bs"; ==; bnz L_bs
 txn ApplicationArgs 0; byte "bd"; ==; bnz L_bd
+txn ApplicationArgs 0; byte "f1"; ==; bnz L_f1
+txn ApplicationArgs 0; byte "f0"; ==; bnz L_f0
 err
+L_f1: int 1; app_params_set AppFamilyBoxAccess; b L_ok
+L_f0: int 0; app_params_set AppFamilyBoxAccess; b L_ok
 L_gu: txn ApplicationArgs 1; int 7; app_global_put; b L_ok
 L_gb: txn ApplicationArgs 1; byte "v"; app_global_put; b L_ok
 L_gd: txn ApplicationArgs 1; app_global_del; b L_ok
@@ -115,6 +124,29 @@ L_bz: txn ApplicationArgs 1; txn ApplicationArgs 2; btoi; box_resize; b L_ok
 L_br: txn ApplicationArgs 1; int 0; byte "x"; box_replace; b L_ok
 L_bs: txn ApplicationArgs 1; int 0; int 1; byte "yz"; box_splice; b L_ok
 L_bd: txn ApplicationArgs 1; box_del; pop; b L_ok
+L_ok: int 1
+`
+
+// c23sibling is a second application of the same creator that works on the dispatcher's
+// boxes through the app_box_* opcodes (allowed while the dispatcher has FamilyBoxAccess set).
+const c23sibling = `
+txn ApplicationID
+bz L_ok
+txn NumAppArgs
+bz L_ok
+txn ApplicationArgs 0; byte "bc"; ==; bnz L_bc
+txn ApplicationArgs 0; byte "bp"; ==; bnz L_bp
+txn ApplicationArgs 0; byte "bz"; ==; bnz L_bz
+txn ApplicationArgs 0; byte "br"; ==; bnz L_br
+txn ApplicationArgs 0; byte "bs"; ==; bnz L_bs
+txn ApplicationArgs 0; byte "bd"; ==; bnz L_bd
+err
+L_bc: txn Applications 1; txn ApplicationArgs 1; txn ApplicationArgs 2; btoi; app_box_create; pop; b L_ok
+L_bp: txn Applications 1; txn ApplicationArgs 1; txn ApplicationArgs 2; app_box_put; b L_ok
+L_bz: txn Applications 1; txn ApplicationArgs 1; txn ApplicationArgs 2; btoi; app_box_resize; b L_ok
+L_br: txn Applications 1; txn ApplicationArgs 1; int 0; byte "x"; app_box_replace; b L_ok
+L_bs: txn Applications 1; txn ApplicationArgs 1; int 0; int 1; byte "yz"; app_box_splice; b L_ok
+L_bd: txn Applications 1; txn ApplicationArgs 1; app_box_del; pop; b L_ok
 L_ok: int 1
 `
 
@@ -143,6 +175,7 @@ type c23ref struct {
 	Opt  [2]bool
 	L    [2][3]c23slot
 	Box  [2]c23box
+	Fam  bool // dispatcher has FamilyBoxAccess set
 }
 
 const c23bogusApp = basics.AppIndex(987654321)
@@ -168,9 +201,10 @@ const (
 	c23kBSplice
 	c23kBDel
 	c23kEndBlock
+	c23kFamily
 )
 
-var c23kindNames = [...]string{"create", "gput", "gdel", "lput", "ldel", "optin", "closeout", "clear", "delapp", "box_create", "box_put", "box_resize", "box_replace", "box_splice", "box_del", "END-BLOCK"}
+var c23kindNames = [...]string{"create", "gput", "gdel", "lput", "ldel", "optin", "closeout", "clear", "delapp", "box_create", "box_put", "box_resize", "box_replace", "box_splice", "box_del", "END-BLOCK", "family_access"}
 
 type c23op struct {
 	kind int
@@ -179,6 +213,7 @@ type c23op struct {
 	t    c23slot // value type for puts
 	n    int     // size / length, or schema ints
 	m    int     // schema bytes
+	sib  bool    // box operation performed by the sibling app on the dispatcher's boxes
 }
 
 func (o c23op) String() string {
@@ -198,9 +233,11 @@ func (o c23op) String() string {
 	case c23kOptIn, c23kCloseOut, c23kClear:
 		return fmt.Sprintf("%s(%s)", c23kindNames[o.kind], acct[o.x])
 	case c23kBCreate, c23kBPut, c23kBResize:
-		return fmt.Sprintf("%s(%q,%d)", c23kindNames[o.kind], c23boxNames[o.x], o.n)
+		return fmt.Sprintf("%s%s(%q,%d)", map[bool]string{true: "sibling.app_"}[o.sib], c23kindNames[o.kind], c23boxNames[o.x], o.n)
 	case c23kBReplace, c23kBSplice, c23kBDel:
-		return fmt.Sprintf("%s(%q)", c23kindNames[o.kind], c23boxNames[o.x])
+		return fmt.Sprintf("%s%s(%q)", map[bool]string{true: "sibling.app_"}[o.sib], c23kindNames[o.kind], c23boxNames[o.x])
+	case c23kFamily:
+		return fmt.Sprintf("family_access(%d)", o.n)
 	}
 	return c23kindNames[o.kind]
 }
@@ -220,6 +257,23 @@ func c23boxAlphabet() []c23op {
 		}
 	}
 	ops = append(ops, c23op{kind: c23kDelApp}, c23op{kind: c23kEndBlock})
+	return ops
+}
+
+// c23familyAlphabet: a reduced box alphabet performed by the dispatcher itself and by the
+// sibling app, plus switching FamilyBoxAccess on/off.
+func c23familyAlphabet() []c23op {
+	var ops []c23op
+	for _, sib := range []bool{false, true} {
+		for x := 0; x < 2; x++ {
+			ops = append(ops, c23op{kind: c23kBCreate, x: x, n: 0, sib: sib}, c23op{kind: c23kBCreate, x: x, n: 8, sib: sib},
+				c23op{kind: c23kBPut, x: x, n: 8, sib: sib},
+				c23op{kind: c23kBResize, x: x, n: 0, sib: sib}, c23op{kind: c23kBResize, x: x, n: 1, sib: sib},
+				c23op{kind: c23kBSplice, x: x, sib: sib},
+				c23op{kind: c23kBDel, x: x, sib: sib})
+		}
+	}
+	ops = append(ops, c23op{kind: c23kFamily, n: 1}, c23op{kind: c23kFamily, n: 0}, c23op{kind: c23kDelApp}, c23op{kind: c23kEndBlock})
 	return ops
 }
 
@@ -291,7 +345,12 @@ func (ref *c23ref) judge(o c23op) (bool, func(r *c23ref)) {
 	if !ref.App {
 		return no()
 	}
+	if o.sib && !ref.Fam {
+		return no() // another app may write the dispatcher's boxes only while FamilyBoxAccess is set
+	}
 	switch o.kind {
+	case c23kFamily:
+		return true, func(r *c23ref) { r.Fam = o.n != 0 }
 	case c23kGPut:
 		g := ref.G
 		g[o.k] = o.t
@@ -327,7 +386,7 @@ func (ref *c23ref) judge(o c23op) (bool, func(r *c23ref)) {
 		}
 		return true, func(r *c23ref) { r.Opt[o.x] = false; r.L[o.x] = [3]c23slot{} }
 	case c23kDelApp:
-		return true, func(r *c23ref) { r.App = false; r.G = [3]c23slot{} } // boxes and local states stay behind
+		return true, func(r *c23ref) { r.App = false; r.G = [3]c23slot{}; r.Fam = false } // boxes and local states stay behind
 	case c23kBCreate:
 		bx := ref.Box[o.x]
 		if bx.On {
@@ -394,6 +453,7 @@ type c23env struct {
 	proto   config.ConsensusParams
 	init    c23ref
 	initApp basics.AppIndex
+	sibApp  basics.AppIndex // sibling application (family environment only)
 	approv  []byte
 	clear   []byte
 	blocks  []bookkeeping.Block // committed setup blocks (to rebuild private copies)
@@ -479,7 +539,13 @@ func (s *c23sys) build(o c23op, app basics.AppIndex, note string) *txntest.Txn {
 		}
 	}
 	boxes := func() {
-		tx.Boxes = []transactions.BoxRef{{Index: 0, Name: []byte(c23boxNames[0])}, {Index: 0, Name: []byte(c23boxNames[1])}}
+		idx := uint64(0)
+		if o.sib { // the sibling names the dispatcher as foreign app 1 and refers to ITS boxes
+			tx.ApplicationID = e.sibApp
+			tx.ForeignApps = []basics.AppIndex{app}
+			idx = 1
+		}
+		tx.Boxes = []transactions.BoxRef{{Index: idx, Name: []byte(c23boxNames[0])}, {Index: idx, Name: []byte(c23boxNames[1])}}
 	}
 	itob := func(n int) string { return string([]byte{0, 0, 0, 0, 0, 0, 0, byte(n)}) }
 	switch o.kind {
@@ -524,6 +590,8 @@ func (s *c23sys) build(o c23op, app basics.AppIndex, note string) *txntest.Txn {
 	case c23kBDel:
 		args("bd", c23boxNames[o.x])
 		boxes()
+	case c23kFamily:
+		args([...]string{"f0", "f1"}[o.n])
 	}
 	tx.FirstValid = s.ev.Round()
 	tx.GenesisHash = s.l.GenesisHash()
@@ -908,6 +976,28 @@ func (s *c23sys) final() error {
 		if ad.TotalBoxes != count || ad.TotalBoxBytes != bytes {
 			return ve.Violationf("C23:box-accounting", "app account records TotalBoxes=%d TotalBoxBytes=%d but %d boxes with %d name+value bytes exist (reference %+v)", ad.TotalBoxes, ad.TotalBoxBytes, count, bytes, s.ref.Box)
 		}
+		if s.e.sibApp != 0 {
+			// the sibling owns no boxes, whatever it did to the dispatcher's
+			for _, name := range c23boxNames {
+				key := apps.MakeBoxKey(uint64(s.e.sibApp), name)
+				var val []byte
+				if kd, ok := d.KvMods[key]; ok {
+					val = kd.Data
+				} else if val, err = l.LookupKv(rnd, key); err != nil {
+					return ve.Violationf("C23:lookup", "LookupKv(sibling %q): %v", name, err)
+				}
+				if val != nil {
+					return ve.Violationf("C23:box-misplaced", "box %q exists under the sibling application", name)
+				}
+			}
+			sad, err := acct(s.e.sibApp.Address())
+			if err != nil {
+				return ve.Violationf("C23:lookup", "sibling account: %v", err)
+			}
+			if sad.TotalBoxes != 0 || sad.TotalBoxBytes != 0 {
+				return ve.Violationf("C23:box-accounting-sibling", "sibling app account records TotalBoxes=%d TotalBoxBytes=%d but owns no box", sad.TotalBoxes, sad.TotalBoxBytes)
+			}
+		}
 	}
 
 	// ---- global state
@@ -936,6 +1026,9 @@ func (s *c23sys) final() error {
 				return ve.Violationf("C23:schema-changed", "global schema %+v differs from declared %v", p.GlobalStateSchema, s.ref.GS)
 			}
 			wantSchema = p.GlobalStateSchema
+			if p.FamilyBoxAccess != s.ref.Fam {
+				return ve.Violationf("C23:family-flag", "FamilyBoxAccess=%v, reference says %v", p.FamilyBoxAccess, s.ref.Fam)
+			}
 		}
 		ad, err := acct(s.e.creator)
 		if err != nil {
@@ -1023,7 +1116,8 @@ func TestVerif_C23(t *testing.T) {
 	approv, clear := assemble(c23source), assemble("int 1")
 
 	var envs []*c23env
-	mkenv := func(name string, withApp bool, preBoxes bool) *c23env {
+	sibling := assemble(c23sibling)
+	mkenv := func(name string, withApp bool, preBoxes bool, family bool) *c23env {
 		gb, addrs, _ := ledgertesting.NewTestGenesis(ledgertesting.TurnOffRewards)
 		l, err := c23openLedger(dir, name, cv, gb, false)
 		if err != nil {
@@ -1042,6 +1136,12 @@ func TestVerif_C23(t *testing.T) {
 			endBlock(t, l, ev)
 			e.initApp = app
 			e.init = c23ref{App: true, Made: true, GS: [2]int{1, 1}, LS: [2]int{1, 1}}
+			if family {
+				ev = nextBlock(t, l)
+				txn(t, l, ev, &txntest.Txn{Type: "appl", Sender: e.creator, ApprovalProgram: sibling, ClearStateProgram: clear})
+				e.sibApp = basics.AppIndex(ev.TestingTxnCounter())
+				endBlock(t, l, ev)
+			}
 			if preBoxes {
 				ev = nextBlock(t, l)
 				boxes := []transactions.BoxRef{{Name: []byte("a")}, {Name: []byte("bb")}}
@@ -1062,9 +1162,10 @@ func TestVerif_C23(t *testing.T) {
 		}
 		return e
 	}
-	envApp := mkenv("app", true, false)
-	envFlushed := mkenv("flushed", true, true)
-	envBare := mkenv("bare", false, false)
+	envApp := mkenv("app", true, false, false)
+	envFlushed := mkenv("flushed", true, true, false)
+	envBare := mkenv("bare", false, false, false)
+	envFamily := mkenv("family", true, false, true)
 	defer func() {
 		for _, e := range envs {
 			e.l.Close()
@@ -1081,6 +1182,7 @@ func TestVerif_C23(t *testing.T) {
 		{"kv/app/groups", &c23explore{e: envApp, ops: kvOps}, ve.Pick(4, 5)},
 		{"box/app/groups", &c23explore{e: envApp, ops: boxOps}, ve.Pick(4, 5)},
 		{"kv/bare/groups", &c23explore{e: envBare, ops: kvOps}, ve.Pick(4, 5)},
+		{"box/family/groups", &c23explore{e: envFamily, ops: c23familyAlphabet()}, ve.Pick(3, 4)},
 		{"box/flushed/groups", &c23explore{e: envFlushed, ops: boxOps}, ve.Pick(3, 4)},
 		{"box/app/onegroup", &c23explore{e: envApp, ops: boxOps, onegroup: true}, ve.Pick(4, 5)},
 		{"kv/bare/onegroup", &c23explore{e: envBare, ops: kvOps, onegroup: true}, ve.Pick(4, 5)},
